@@ -72,9 +72,13 @@ def updMaxG {α : Type} (lt : α → α → Bool) (v : α) : Option α → Optio
   | some c => if lt c v then some v else some c
   | none => some v
 
-/-- on `f64` (IEEE comparison of the bit patterns; comparisons with NaN are false) -/
-def updMinF (v : UInt64) (cur : Option UInt64) : Option UInt64 := updMinG fltLt v cur
-def updMaxF (v : UInt64) (cur : Option UInt64) : Option UInt64 := updMaxG fltLt v cur
+/-- `value.partial_cmp(&value).is_none()`: the value is NaN -/
+def fltIsNaN (a : UInt64) : Bool := (Float.ofBits a).isNaN
+
+/-- on `f64` (IEEE comparison of the bit patterns; comparisons with NaN are false).  A NaN is not a bound of
+    anything: `update_min`/`update_max` return at once for a value that cannot be compared with itself -/
+def updMinF (v : UInt64) (cur : Option UInt64) : Option UInt64 := if fltIsNaN v then cur else updMinG fltLt v cur
+def updMaxF (v : UInt64) (cur : Option UInt64) : Option UInt64 := if fltIsNaN v then cur else updMaxG fltLt v cur
 
 /-- on `i64` -/
 def updMinI (v : Int) (cur : Option Int) : Option Int := updMinG (fun a b => decide (a < b)) v cur
